@@ -24,6 +24,8 @@ class Profile:
         self.query_probes = True
         self.extra_meas = []
         self.extra_tag_vals = []
+        self.extra_tag_keys = []
+        self.extra_field_keys = []
         self.allow_no_time = True
         self.min_ops, self.max_ops = 5, 25
         self.probe_every = 1  # probe after every n-th mutating op
@@ -86,14 +88,14 @@ def gen_write_op(rng, model, prof):
         op["via"] = "h"
         op["m"] = m
     if kind == "insert":
-        op["p"] = gen.gen_point(rng, prof.meas, prof.allow_no_time, extra_meas=prof.extra_meas, extra_tag_vals=prof.extra_tag_vals)
+        op["p"] = gen.gen_point(rng, prof.meas, prof.allow_no_time, extra_meas=prof.extra_meas, extra_tag_vals=prof.extra_tag_vals, extra_tag_keys=prof.extra_tag_keys, extra_field_keys=prof.extra_field_keys)
         if not via_h and rng.random() < 0.15:
             op["m"] = rng.choice(names)
         if rng.random() < 0.3 and not via_h:
             op["compact"] = True
     elif kind == "insert_multiple":
         k = max(0, min(rng.choice([0, 1, 2, 3]), prof.max_rows - n))
-        op["ps"] = [gen.gen_point(rng, prof.meas, prof.allow_no_time, extra_meas=prof.extra_meas, extra_tag_vals=prof.extra_tag_vals) for _ in range(k)]
+        op["ps"] = [gen.gen_point(rng, prof.meas, prof.allow_no_time, extra_meas=prof.extra_meas, extra_tag_vals=prof.extra_tag_vals, extra_tag_keys=prof.extra_tag_keys, extra_field_keys=prof.extra_field_keys) for _ in range(k)]
         if not via_h and rng.random() < 0.15:
             op["m"] = rng.choice(names)
         if rng.random() < 0.3 and not via_h:
@@ -191,7 +193,7 @@ class HistoryRunner:
             # seed rows
             n_seed = rng.randint(0, 5) if prof.max_rows <= MAX_ROWS else rng.randint(prof.max_rows // 2, prof.max_rows - 5)
             for _ in range(n_seed):
-                op = {"op": "insert", "p": gen.gen_point(rng, prof.meas, False, extra_meas=prof.extra_meas, extra_tag_vals=prof.extra_tag_vals)}
+                op = {"op": "insert", "p": gen.gen_point(rng, prof.meas, False, extra_meas=prof.extra_meas, extra_tag_vals=prof.extra_tag_vals, extra_tag_keys=prof.extra_tag_keys, extra_field_keys=prof.extra_field_keys)}
                 self._write(s, op)
             for step in range(n_ops):
                 op = gen_write_op(rng, s.model, prof)
